@@ -6,4 +6,12 @@ ENGINE = 'E2'
 
 
 def run(ctx):
-    return run_e2('C04', ctx, ['c04_reject', 'c04_type', 'c04_firstparam_type'], 'twin_c04')
+    res = run_e2('C04', ctx, ['c04_reject', 'c04_type', 'c04_firstparam_type'], 'twin_c04')
+    from vlib.e1 import Ob, run_obligations
+    tmo = 900 if ctx.thorough else 100
+    obs = [Ob('factory_misuse', 'ob_factory_misuse', '', packed=[('kind', 4), ('how', 3)], timeout=tmo, confirm='confirm_factory_misuse',
+              desc='render functions produced by a render factory (constructor list, add(), re-bound on embedding): one that takes next (required or defaulted) is rejected with NameError at construction'),
+           Ob('nonunique_conflict', 'ob_nonunique_conflict', '', packed=[('level_a', 3), ('level_b', 3), ('same_name', 2, 'bool'), ('cls_i', 1)], timeout=tmo, confirm='confirm_nonunique_conflict',
+              desc='two instances of one NON-unique middleware type at outer / embedded / route level: offering the same name is a NameError, different names are fine')]
+    res.merge(run_obligations('C04', 'harness.c04', obs, ctx.tier))
+    return res
